@@ -570,7 +570,7 @@ def main(tier):
                        "in-flight = first transmitted and not yet acked/reset/given up, "
                        "evaluated in event order"]
     exe = build.ensure_world("asan")
-    total = 1200 if tier == "quick" else 50000
+    total = 4000 if tier == "quick" else 50000
     chunk = 15
     jobs = [(list(range(i, min(total, i + chunk))), exe) for i in range(0, total, chunk)]
     stats = dict(outcomes={})
